@@ -33,7 +33,8 @@ def arbiter_config(draw, max_n=6, min_n=1):
             # the arbiter is elaborated once after this many add() calls (None: only when complete)
             "mid_elab": draw(st.sampled_from([None, None, None, 0, 1, 2])),
             # feature names given partly as strings, partly as Feature members
-            "feat_mixed": draw(st.booleans()),
+            "feat_style": draw(st.sampled_from(gens.FEATURE_STYLES)),
+            "feat_tamper": draw(st.sampled_from(gens.FEATURE_TAMPER)),
             # every initiator interface created with the same path (identically named signals)
             "same_path": draw(st.sampled_from([False, False, True]))}
 
@@ -50,10 +51,10 @@ def schedule_spec():
 
 def build(cfg):
     def spell(feat):
-        if not cfg.get("feat_mixed"):
-            return list(feat)
-        return [wishbone.Feature(f) if k % 2 == 0 else f for k, f in enumerate(feat)]
-    arb = wishbone.Arbiter(addr_width=cfg["aw"], data_width=cfg["dw"], granularity=cfg["g"], features=spell(cfg["feat"]))
+        return gens.spell_features(feat, cfg.get("feat_style", "mixed" if cfg.get("feat_mixed") else "list"))
+    passed = spell(cfg["feat"])
+    arb = wishbone.Arbiter(addr_width=cfg["aw"], data_width=cfg["dw"], granularity=cfg["g"], features=passed)
+    gens.tamper_features(passed, arb.bus, cfg.get("feat_tamper"))
     intrs = []
     arb.ghosts = []
 
